@@ -1,6 +1,7 @@
 SPECIFICATION Spec
 CONSTANTS Devs = {}
-          Cases <- MQuick
+          Cases <- MCSel
+          Family = "MQuick"
 INVARIANTS TypeOK VisitedSafe VisitedExact DepthShortest FetchedExact LocalExact HandlerCidRight
            HandlerCallsRight ProvidedExact ResultRight NoHandlerCrash
 PROPERTY Termination
